@@ -212,7 +212,7 @@ func (e *Engine) runPath(sol *Solver, prefix []int) (res PathResult) {
 		panic(*p.pendingAbort)
 	}
 	if lk := p.leakedLock(); lk != "" {
-		p.reportViolationSafe("lockleak", "a mutex is left locked for ever by a goroutine that has returned: "+lk)
+		p.reportViolationSafe("lockleak", "mutex wedged at the end of the path: "+lk)
 	}
 	return
 }
